@@ -32,7 +32,7 @@ reg("C12", harness="c12_gf", level="exploration", deadline=(60, 300),
 
 reg("C16", harness="c16_dispatch", level="model_checking", deadline=(120, 600), build_src=["isareq.c"], engine="simcpu",
     technique="explicit-state enumeration of every dependency-closed CPUID/XCR0 assignment, executing the real resolver code per state",
-    level_text="The resolvers' complete observable input space (25 CPUID/XCR0 bits, SDM-closed: 45 400 assignments) is enumerated and every one "
+    level_text="The resolvers' complete observable input space (24 CPUID/XCR0 feature bits SDM-closed x 2 family/model signatures, the signature independent of the feature bits: 90 752 assignments) is enumerated and every one "
                "of the 42 unmodified resolvers is executed in each state with cpuid/xgetbv answered by the harness; the selected "
                "implementation's instruction-set needs (classified from the built objects by recursive-descent disassembly) must be a subset "
                "of what the state offers; every distinct resolution vector is then materialised and a data-plane battery is run under it "
